@@ -1087,6 +1087,15 @@ def run_check(ctx, pid):
             pred.append((det.get("case"), ("C01", key, what, det)))
         for d in rcorr:
             corr.append((d.get("case"), d))
+    if pid == "C04":
+        pst, ppred, pcorr = run_pool(ctx)
+        st["producer_path_pool"] = pst
+        ctx.cov["evaluations"] += pst["pooled_txs_offered"]
+        ctx.cov["traces_validated_against_impl"] += pst["pooled_txs_offered"]
+        for key, what, det in ppred:
+            pred.append((det.get("case"), ("C04", key, what, det)))
+        for d in pcorr:
+            corr.append((d.get("case"), d))
     # ---- decide: direct predicate failures of THIS property first
     mine = [(c, f) for c, f in pred if f[0] == pid]
     seen = set()
@@ -1195,3 +1204,111 @@ def run_reward(ctx):
             if pv.get("R%d" % c["id"]) != want:
                 corr.append({"what": "voting reward: model and implementation differ", "case": c, "engine": want, "model": pv.get("R%d" % c["id"])})
     return {"cases": len(cases), "winners": winners}, pred, corr
+
+
+# ------------------------------------------------------------------ producer path: real mempool -> real executor (C04)
+def gen_pool_case(rng, cid):
+    r = rng
+    accts = [10, 11, 12]
+    steps = [{"op": "fund", "id": a, "amt": str(1000 * AERGO)} for a in accts]
+    owner = {}
+    for k in (1, 2):
+        if r.random() < 0.8:
+            o = r.choice(accts)
+            owner[k] = o
+            steps.append({"op": "name", "name": k, "owner": o})
+    dest = dict(owner)
+    nonce = {a: 0 for a in accts}
+    for _ in range(r.randint(2, 6)):
+        k = r.random()
+        if k < 0.45 and owner:
+            nm = r.choice(list(owner))
+            signer = dest[nm] if r.random() < 0.8 else r.choice(accts)
+            steps.append({"op": "put", "from": 200 + nm, "signer": signer, "nonce": nonce[dest[nm]] + r.choice([1, 1, 1, 2]), "to": 13,
+                          "amt": str(r.choice([5, 1000, AERGO]))})
+        elif k < 0.75:
+            a = r.choice(accts)
+            steps.append({"op": "put", "from": a, "signer": a if r.random() < 0.85 else r.choice(accts), "nonce": nonce[a] + 1, "to": 13, "amt": "7"})
+        elif owner:
+            nm = r.choice(list(owner))
+            to = r.choice([a for a in accts if a != dest[nm]])
+            steps.append({"op": "repoint", "name": nm, "owner": dest[nm], "to": to})   # owner == destination in this engine
+            dest[nm] = to
+    steps.append({"op": "produce"})
+    if r.random() < 0.5:
+        steps.append({"op": "produce"})
+    return {"id": cid, "steps": steps}
+
+
+def run_pool(ctx):
+    """Real MemPool (verifyTx / put / removeOnBlockArrival / get) feeding the real chain.NewTxExecutor, names re-pointed
+    while transactions are pooled.  Model: Ledger.exec_tx_pooled with the account verified at admission."""
+    rc, log, path = ctx.go_test_binary(
+        "mempool", [os.path.join(L, "zz_verif_pool_engine_test.go")], "pool.test",
+        overlay_extra={"contract/zz_vmstub_verif.go": os.path.join(L, "zz_vmstub_ledger.go.txt")})
+    if rc != 0:
+        raise RuntimeError("pool engine build failed:\n" + log[-3000:])
+    A = AERGO
+    seedlike = {"id": 1, "steps": [{"op": "fund", "id": 10, "amt": str(1000 * A)}, {"op": "fund", "id": 11, "amt": str(1000 * A)},
+                                   {"op": "name", "name": 1, "owner": 10},
+                                   {"op": "put", "from": 201, "signer": 10, "nonce": 1, "to": 13, "amt": str(5 * A)},
+                                   {"op": "put", "from": 11, "signer": 11, "nonce": 1, "to": 13, "amt": "7"},
+                                   {"op": "repoint", "name": 1, "owner": 10, "to": 11}, {"op": "produce"}, {"op": "produce"}]}
+    control = {"id": 2, "steps": [{"op": "fund", "id": 10, "amt": str(1000 * A)}, {"op": "name", "name": 1, "owner": 10},
+                                  {"op": "put", "from": 201, "signer": 10, "nonce": 1, "to": 13, "amt": str(5 * A)},
+                                  {"op": "put", "from": 201, "signer": 11, "nonce": 2, "to": 13, "amt": "9"}, {"op": "produce"}]}
+    # a refused name-sender tx stays pooled and is offered again by the next block production (known finding
+    # C04:pool-retry-loses-verified-account: the first attempt stripped its verified account)
+    retry = {"id": 3, "steps": [{"op": "fund", "id": 10, "amt": str(1000 * A)}, {"op": "fund", "id": 11, "amt": str(1000 * A)},
+                                {"op": "name", "name": 1, "owner": 10}, {"op": "repoint", "name": 1, "owner": 10, "to": 11},
+                                {"op": "put", "from": 201, "signer": 11, "nonce": 1, "to": 13, "amt": "5"},
+                                {"op": "repoint", "name": 1, "owner": 11, "to": 10}, {"op": "produce"}, {"op": "produce"}]}
+    cases = [seedlike, control, retry]
+    for i in range(10 if ctx.tier == "quick" else 150):
+        cases.append(gen_pool_case(ctx.rng, len(cases) + 1))
+    fin = os.path.join(ctx.workdir, "pool.in")
+    fout = os.path.join(ctx.workdir, "pool.out")
+    with open(fin, "w") as f:
+        for c in cases:
+            f.write(json.dumps(c) + "\n")
+    rc, log = ctx.run_bin(path, ["-test.run", "TestVerifPoolEngine"], env={"VERIF_IN": fin, "VERIF_OUT": fout})
+    if rc != 0:
+        raise RuntimeError("pool engine failed:\n" + log[-3000:])
+    obs = {}
+    for l in open(fout):
+        o = json.loads(l)
+        obs.setdefault(o["case"], []).append(o)
+    pred, corr, txt, want, ntx = [], [], [HEADER], {}, 0
+    for c in cases:
+        offered = set()
+        for o in obs.get(c["id"], []):
+            if o["op"] == "panic":
+                pred.append(("pool-panic", "producer path panicked: " + o.get("err", ""), {"case": c}))
+            for k, t in enumerate(o.get("txs") or []):
+                ntx += 1
+                st = c["steps"][t["put"]]
+                moved = sorted(int(i) for i in t["after"] if t["after"][i]["n"] != t["before"][i]["n"])
+                retried = t["put"] in offered     # executeTx REMOVES the verified account from the pooled object at its first attempt
+                offered.add(t["put"])
+                if not t["err"] and moved != [st["signer"]]:
+                    pred.append(("pool-retry-loses-verified-account" if retried else "pool-foreign-debit", "producer path: a pooled transaction signed by the key of account %d was executed against account %s "
+                                 "(its sender name was re-pointed while it was pooled)" % (st["signer"], moved), {"case": c, "tx": st}))
+                # model: exec_tx_pooled with the account verified at admission (= the signer: admission checked the signature)
+                accs = "; ".join("(%s, {| bal := %s; nonce := %s; code := false |})" % (Ns(int(i)), a["b"], Ns(a["n"])) for i, a in sorted(t["before"].items()))
+                nms = "; ".join("(%s, (%s, %s))" % (Ns(int(n)), Ns(v[0]), Ns(v[1])) for n, v in sorted(t["names"].items()))
+                name = "P%d_%d_%d" % (c["id"], o["step"], k)
+                txt.append("Definition %s := Eval vm_compute in [match fst (exec_tx_pooled is_name_std (fun _ _ => 999%%N) tx_hash_std (fun _ _ _ _ => VmRuntimeErr 0) "
+                           "{| c_version := %d; c_zerofee := false; c_gas_price := 50000000000; c_chain := 7%%N; c_name_price := 0; c_stake_min := 0; c_stake_delay := 0%%N; "
+                           "c_vote_delay := 0%%N; c_fix_f24 := true; c_fix_f18 := true |} %s 9%%N (mk_state [%s] [] 0 [%s]) "
+                           "(T KTransfer %s %s %s %s 0 0 7%%N 1%%N %s 0%%N 0%%N false)) with Rejected => 2 | FeeNonceOnly => 1 | Applied => 0 end].\nPrint %s.\n" % (
+                               name, o["version"], "None" if retried else "(Some %s)" % Ns(st["signer"]), accs, nms, Ns(st["from"]), Ns(st["to"]), Ns(st["nonce"]), Zs(int(st["amt"])), Ns(st["signer"]), name))
+                want[name] = [2 if t["err"] else 0]
+    rc, out = ctx.coq_eval("pool", "\n".join(txt))
+    if rc != 0:
+        corr.append({"what": "pool model evaluation failed", "detail": out[-1500:]})
+    else:
+        pv = parse_chk(out)
+        for name, w in want.items():
+            if pv.get(name) != w:
+                corr.append({"what": "producer path: model (exec_tx_pooled) and implementation differ on executed / refused", "tx": name, "engine": w, "model": pv.get(name)})
+    return {"cases": len(cases), "pooled_txs_offered": ntx}, pred, corr
